@@ -295,6 +295,29 @@ def tset_cases(rng, tier):
                             colsv2 = [list(c) for c in colsv]
                             colsv2[1] = [["i", 1]] * (L + 1)
                             cs.append(dict(base, value=["cols", colsv2]))
+    # the row key is a LIVE COLUMN of the table being assigned to (t[t.flag, :] = 0; t[t.idx, 'x'] = [..]): the
+    # addressed cells are the ones the key names when the assignment starts, whichever column is written first
+    for n in (3, 4):
+        for kind in ("mask", "idx"):
+            for _ in range(12 if tier == "quick" else 60):
+                if kind == "mask":
+                    kv = [rng.random() < 0.6 for _ in range(n)]
+                    if not any(kv):
+                        kv[0] = True
+                    keycol = {"name": "m", "vals": [["b", x] for x in kv]}
+                    rowkey, L = ["maskv", kv], sum(kv)
+                else:
+                    kv = rng.sample(range(n), rng.randint(1, n))
+                    kv = kv + [0] * (n - len(kv))                      # a column needs n cells; extra zeros repeat row 0
+                    keycol = {"name": "k", "vals": [["i", x] for x in kv]}
+                    rowkey, L = ["idxv", kv], len(kv)
+                t = [keycol] + tab(n)[:2]
+                sp = rng.choice([["all", False], ["all", True], ["names", [keycol["name"], "a"]], ["names", ["a", keycol["name"]]],
+                                 ["name", "a"], ["int", 0]])
+                ncols = {"all": 3, "int": 1, "name": 1}.get(sp[0], len(sp[1]) if sp[0] == "names" else 1)
+                base = {"op": "tset", "cols": t, "rowkey": rowkey, "colspec": sp, "selfkey": 0}
+                cs.append(dict(base, value=["scalar", rng.choice([["b", False], ["i", 0], ["i", 1], ["b", True]])]))
+                cs.append(dict(base, value=["cols", [[["i", (q + j) % n] for j in range(L)] for q in range(ncols)]]))
     return cs
 
 
@@ -458,6 +481,8 @@ def observe(case):
         if op == "tset":
             t = Table([Vector([V.dec(x) for x in c["vals"]], name=c["name"]) for c in case["cols"]])
             rows = _mk_key(case["rowkey"])
+            if case.get("selfkey") is not None:
+                rows = t._underlying[case["selfkey"]]        # the live column object (what t.m / t.k returns)
             sp = case["colspec"]
             if sp[0] == "all":
                 key = (rows, slice(None)) if sp[1] else rows
@@ -503,7 +528,7 @@ def observe(case):
 
 ERR = {"AliasError": "EAlias", "SerifTypeError": "EType", "SerifValueError": "EValue", "SerifIndexError": "EIndex",
        "SerifKeyError": "EKey", "OtherError": "EOther"}
-NAMES = ["a", "b", "c", "d", "x", "z", "y", "q", "w", "zz", "v0", "v1", "v2"]
+NAMES = ["a", "b", "c", "d", "x", "z", "y", "q", "w", "zz", "v0", "v1", "v2", "m", "k"]
 
 
 class Ids:
